@@ -105,6 +105,8 @@ type Config struct {
 	// re-created over an already initialised DB (no InitChain, no block 1).
 	DB      dbm.DB
 	Restart bool
+	// Logger replaces the default no-op logger.
+	Logger log.Logger
 }
 
 type World struct {
@@ -139,6 +141,9 @@ func New(cfg Config) *World {
 	var lg log.Logger = log.NewNopLogger()
 	if os.Getenv("VERIF_LOG") != "" {
 		lg = log.NewLogger(os.Stderr)
+	}
+	if cfg.Logger != nil {
+		lg = cfg.Logger
 	}
 	if cfg.DB == nil {
 		cfg.DB = dbm.NewMemDB()
